@@ -20,35 +20,23 @@ func (g *gen) paramText(params []int64) string {
 	for i, p := range params {
 		parts[i] = Pick(g.r, []string{"", " ", "\t"}) + idents[p] + Pick(g.r, []string{"", " "})
 	}
-	// after the last parameter: anything but a // comment (recorded finding C03-function-ctor-param-comment, pinned)
-	return strings.Join(parts, ",") + Pick(g.r, []string{"", "", " ", "/* c */", "\n", " /**/ ", "\u2028"})
+	// after the last parameter: white space, comments of both kinds (a // comment without line terminator too:
+	// the region of the repaired finding C03-function-ctor-param-comment), line terminators
+	return strings.Join(parts, ",") + Pick(g.r, []string{"", "", " ", "/* c */", "\n", " /**/ ", "\u2028", "// c", " //", "//) {", "/* c */ // d", "\r"})
 }
 
-// pinned: a parameter text ending in a single-line comment (ES5 15.3.2.1: P only has to parse as a FormalParameterList)
+// regression cases of the repaired finding C03-function-ctor-param-comment (/repo 1ec2834): a parameter text
+// ending in a single-line comment; and of e7d0cb4: a FormalParameterList has no trailing comma
 func (g *gen) pinFunctionCtor() {
-	want := &N{Tag: tFun, Vals: []int64{-1, 0}, Kids: []*N{nd(tReturn, nil, id(0))}}
-	for _, ptext := range []string{"a // c", "a//"} {
-		var pf *N
-		errText := ""
-		func() {
-			defer func() {
-				if r := recover(); r != nil {
-					errText = fmt.Sprintf("PANIC %v", r)
-				}
-			}()
-			lit, err := parser.ParseFunction(ptext, "return a")
-			if err != nil {
-				errText = err.Error()
-				return
-			}
-			pf = fromFunction(lit, tFun)
-		}()
-		shown := "syntax error: " + errText
-		if pf != nil {
-			shown = "tree " + pf.coq()
-		}
-		g.add(fmt.Sprintf("CPin 15 (%s) None %s", want.coq(), optTree(pf)),
-			fmt.Sprintf("pinned parser.ParseFunction(%q, %q) -> %s ; ES5 tree %s", ptext, "return a", shown, want.coq()), "pinned", true)
+	for _, c := range []struct {
+		ptext  string
+		params []int64
+	}{{"a // c", []int64{0}}, {"a//", []int64{0}}, {"a, b // c) {", []int64{0, 1}}, {"// none", nil}, {"a /* c */ // d", []int64{0}}} {
+		g.funBodyCaseWith(c.ptext, c.params, []*N{nd(tReturn, nil, id(0))}, "", "regression-fixed", 0, 1)
+		g.funBodyCaseWith(c.ptext, c.params, nil, "// c", "regression-fixed", 0, 1)
+	}
+	for _, src := range []string{"function f(a,){}", "(function(a,){})", "x = {set p(a,){}}", "function f(a,b,){return a}", "function f(,){}"} {
+		g.rejectCase(src)
 	}
 }
 
@@ -62,6 +50,10 @@ func optTree(n *N) string {
 // a FunctionBody through three entry points: inside a function declaration of a program (ParseFile),
 // parser.ParseFunction(params, body), and the Function constructor called as a function and with new
 func (g *gen) funBodyCase(params []int64, stmts []*N, suffix, bucket string, density, semiStyle int) {
+	g.funBodyCaseWith(g.paramText(params), params, stmts, suffix, bucket, density, semiStyle)
+}
+
+func (g *gen) funBodyCaseWith(ptext string, params []int64, stmts []*N, suffix, bucket string, density, semiStyle int) {
 	g.semiStyle = semiStyle
 	g.pendingNL = false
 	toks := g.printStmts(nil, stmts, "}")
@@ -72,12 +64,11 @@ func (g *gen) funBodyCase(params []int64, stmts []*N, suffix, bucket string, den
 		noTail = false
 	}
 	body += suffix
-	ptext := g.paramText(params)
 
 	want := strip(&N{Tag: tFun, Vals: append([]int64{-1}, params...), Kids: stmts})
 	wantDecl := strip(&N{Tag: tProg, Kids: []*N{{Tag: tFunDecl, Vals: append([]int64{34}, params...), Kids: stmts}}})
 
-	decl, declErr := parseProgram("function f(" + ptext + ") {\n" + body + "\n}")
+	decl, declErr := parseProgram("function f(" + ptext + "\n) {\n" + body + "\n}")
 	var pf *N
 	pfErr := ""
 	func() {
